@@ -17,8 +17,16 @@ package main
 
 import (
 	"bytes"
+	"fmt"
 	"go/ast"
+	"go/token"
+	"go/types"
 )
+
+func posOfNode(n ast.Node) string {
+	p := fset.Position(n.Pos())
+	return fmt.Sprintf("%s:%d", shortFile(p.Filename), p.Line)
+}
 
 func init() {
 	typeBinds["types.UnverifiedBaseResponse"] = "base_response"
@@ -35,10 +43,18 @@ func init() {
 	callBinds["io.ReadAll"] = callBind{tmpl: "(read_all inflate_prefix %s)", use: []int{0}, nargs: 1, typ: "pair:[]byte,error", opt: true}
 	callBinds["rtvalidator.Validate"] = callBind{tmpl: "(rt_validate rt_ok %s)", use: []int{0}, nargs: 1, typ: "error", opt: true}
 
-	// xml.Unmarshal(data, &T): fills *T (also when it fails) and returns the error
+	// xml.Unmarshal(data, &T): fills *T (also when it fails) and returns the error.  The oracle is indexed by the decoder's
+	// CharsetReader setting (XmlTok.charset_reader): xml.Unmarshal has none
 	mutBinds["xml.Unmarshal"] = mutBind{mut: 1, upd: map[string]string{
-		"types.UnverifiedBaseResponse": "(xml_unmarshal_into base_response_is_zero xml_unmarshal_base %s %s)",
-		"types.LogoutResponse":         "(xml_unmarshal_into logout_response_is_zero xml_unmarshal_logout %s %s)",
+		"types.UnverifiedBaseResponse": "(xml_unmarshal_into base_response_is_zero (xml_unmarshal_base CsNone) %s %s)",
+		"types.LogoutResponse":         "(xml_unmarshal_into logout_response_is_zero (xml_unmarshal_logout CsNone) %s %s)",
+	}}
+	// xmlUnmarshalDocument(data, T) (decode_response.go, since 6cc4dbc): the same oracle under the CharsetReader setting READ OFF
+	// THE HELPER'S BODY (decoderShape below -> Definition xmlUnmarshalDocument_charset_reader); the body itself is not translated
+	// (its target is an interface{}: the engine has no polymorphic pointee)
+	mutBinds["xmlUnmarshalDocument"] = mutBind{mut: 1, local: true, upd: map[string]string{
+		"types.UnverifiedBaseResponse": "(xml_unmarshal_into base_response_is_zero (xml_unmarshal_base xmlUnmarshalDocument_charset_reader) %s %s)",
+		"types.LogoutResponse":         "(xml_unmarshal_into logout_response_is_zero (xml_unmarshal_logout xmlUnmarshalDocument_charset_reader) %s %s)",
 	}}
 	// doc.ReadFromBytes(b): fills the document (also when it fails) and returns the error
 	mutBinds["M:*etree.Document.ReadFromBytes"] = mutBind{mut: -1, upd: map[string]string{
@@ -76,6 +92,101 @@ func deflateOverrides() func() {
 	}
 }
 
+// decoderShape reads the xml.Decoder configuration off the body of
+//     func xmlUnmarshalDocument(data []byte, obj interface{}) error
+// and answers the XmlTok.charset_reader it amounts to ("" + reason when the body has another shape).  Accepted, statement for
+// statement and nothing else:
+//     return xml.Unmarshal(data, obj)                                              -> CsNone
+//     d := xml.NewDecoder(bytes.NewReader(data)); return d.Decode(obj)              -> CsNone
+//     d := xml.NewDecoder(bytes.NewReader(data))
+//     d.CharsetReader = func(_ string, in io.Reader) (io.Reader, error) { return in, nil }
+//     return d.Decode(obj)                                                          -> CsPassThrough
+// Any further statement (d.Strict = .., d.Entity = .., another reader, another literal) is not understood: no definition is
+// emitted and the proofs citing it stop compiling.
+func decoderShape(fn *ast.FuncDecl) (string, string) {
+	ps := fn.Type.Params.List
+	if fn.Recv != nil || len(ps) != 2 || len(ps[0].Names) != 1 || len(ps[1].Names) != 1 || types.ExprString(ps[0].Type) != "[]byte" ||
+		(types.ExprString(ps[1].Type) != "interface{}" && types.ExprString(ps[1].Type) != "any") ||
+		fn.Type.Results == nil || len(fn.Type.Results.List) != 1 || types.ExprString(fn.Type.Results.List[0].Type) != "error" {
+		return "", "signature is not func(data []byte, obj interface{}) error"
+	}
+	data, obj := ps[0].Names[0].Name, ps[1].Names[0].Name
+	isCall := func(e ast.Expr, fun string, args ...string) bool {
+		c, ok := e.(*ast.CallExpr)
+		if !ok || exprString(c.Fun) != fun || len(c.Args) != len(args) || c.Ellipsis.IsValid() {
+			return false
+		}
+		for i, a := range args {
+			if exprString(c.Args[i]) != a {
+				return false
+			}
+		}
+		return true
+	}
+	ret := func(s ast.Stmt) ast.Expr {
+		if r, ok := s.(*ast.ReturnStmt); ok && len(r.Results) == 1 {
+			return r.Results[0]
+		}
+		return nil
+	}
+	body := fn.Body.List
+	if len(body) == 1 {
+		if e := ret(body[0]); e != nil && isCall(e, "xml.Unmarshal", data, obj) {
+			return "CsNone", "return xml.Unmarshal(" + data + ", " + obj + "): no CharsetReader"
+		}
+		return "", "body is not a decoder set-up"
+	}
+	if len(body) < 2 || len(body) > 3 {
+		return "", "body is not a decoder set-up"
+	}
+	as, ok := body[0].(*ast.AssignStmt)
+	if !ok || as.Tok != token.DEFINE || len(as.Lhs) != 1 || len(as.Rhs) != 1 {
+		return "", "first statement is not d := xml.NewDecoder(bytes.NewReader(data))"
+	}
+	did, ok := as.Lhs[0].(*ast.Ident)
+	if !ok || did.Name == data || did.Name == obj || !isCall(as.Rhs[0], "xml.NewDecoder", "bytes.NewReader("+data+")") {
+		return "", "first statement is not d := xml.NewDecoder(bytes.NewReader(data))"
+	}
+	d := did.Name
+	if e := ret(body[len(body)-1]); e == nil || !isCall(e, d+".Decode", obj) {
+		return "", "last statement is not return d.Decode(obj)"
+	}
+	if len(body) == 2 {
+		return "CsNone", "xml.NewDecoder over the bytes, no CharsetReader, Decode"
+	}
+	set, ok := body[1].(*ast.AssignStmt)
+	if !ok || set.Tok != token.ASSIGN || len(set.Lhs) != 1 || len(set.Rhs) != 1 || exprString(set.Lhs[0]) != d+".CharsetReader" {
+		return "", "second statement is not d.CharsetReader = func.."
+	}
+	lit, ok := set.Rhs[0].(*ast.FuncLit)
+	if !ok {
+		return "", "CharsetReader is not a function literal"
+	}
+	var names, ptypes []string
+	for _, f := range lit.Type.Params.List {
+		if len(f.Names) == 0 {
+			names, ptypes = append(names, "_"), append(ptypes, types.ExprString(f.Type))
+		}
+		for _, n := range f.Names {
+			names, ptypes = append(names, n.Name), append(ptypes, types.ExprString(f.Type))
+		}
+	}
+	rs := lit.Type.Results
+	if len(names) != 2 || ptypes[0] != "string" || ptypes[1] != "io.Reader" || rs == nil || len(rs.List) != 2 ||
+		len(rs.List[0].Names) != 0 || types.ExprString(rs.List[0].Type) != "io.Reader" || types.ExprString(rs.List[1].Type) != "error" {
+		return "", "CharsetReader literal is not func(string, io.Reader) (io.Reader, error)"
+	}
+	if len(lit.Body.List) != 1 {
+		return "", "CharsetReader literal does more than return its input"
+	}
+	r, ok := lit.Body.List[0].(*ast.ReturnStmt)
+	if !ok || len(r.Results) != 2 || names[1] == "_" || names[1] == "nil" || names[0] == names[1] ||
+		exprString(r.Results[0]) != names[1] || exprString(r.Results[1]) != "nil" {
+		return "", "CharsetReader literal does more than return its input"
+	}
+	return "CsPassThrough", "xml.NewDecoder over the bytes, CharsetReader = every label accepted and the input handed back unchanged, Decode"
+}
+
 // callees first
 var deflateFuncList = []string{
 	"maybeDeflate",
@@ -101,13 +212,21 @@ func emitDeflateFuncs(root, types *pkgFiles, env, tenv constEnv) []byte {
 	out.WriteString("(* GenDeflate.v — GENERATED by /verif/gen (funcs.go, unit_Deflate.go) from the function bodies of /repo's working tree on\n")
 	out.WriteString("   every run.  Do not edit.  Target combinators: GenPrelude.v, GenPreludeD.v, GenPreludeT.v, GenPreludeDeflate.v.  The DEFLATE\n")
 	out.WriteString("   stream, etree's parser, the round-trip validator and xml.Unmarshal of bytes are Section variables. *)\n")
-	out.WriteString("From V Require Import Base Time Xml Types Generated Deflate GenPrelude GenPreludeD GenPreludeT GenPreludeDeflate.\n\n")
+	out.WriteString("From V Require Import Base Time Xml Types Generated Deflate XmlTok GenPrelude GenPreludeD GenPreludeT GenPreludeDeflate.\n\n")
 	out.WriteString("Section GenDeflate.\n")
 	out.WriteString("  Variable inflate_prefix : string -> Z -> string * bool.\n")
 	out.WriteString("  Variable read_from_bytes : string -> option node * bool.\n")
 	out.WriteString("  Variable rt_ok : string -> bool.\n")
-	out.WriteString("  Variable xml_unmarshal_base : string -> base_response * option err.\n")
-	out.WriteString("  Variable xml_unmarshal_logout : string -> logout_response * option err.\n\n")
+	out.WriteString("  Variable xml_unmarshal_base : charset_reader -> string -> base_response * option err.\n")
+	out.WriteString("  Variable xml_unmarshal_logout : charset_reader -> string -> logout_response * option err.\n\n")
+	if fn, ok := x.funcs["xmlUnmarshalDocument"]; ok {
+		if cs, why := decoderShape(fn); cs != "" {
+			out.WriteString("  (* xmlUnmarshalDocument (" + posOfNode(fn) + "): " + why + " *)\n")
+			out.WriteString("  Definition xmlUnmarshalDocument_charset_reader : charset_reader := " + cs + ".\n\n")
+		} else {
+			out.WriteString("  (* UNSUPPORTED xmlUnmarshalDocument: " + posOfNode(fn) + ": " + why + " *)\n\n")
+		}
+	}
 	for _, n := range deflateFuncList {
 		x.function(&out, n)
 	}
